@@ -227,7 +227,7 @@ func (s *verifHoldCtlSuite) TestVerifHoldCtlRun(c *C) {
 	smallTicks := []int64{1, 2, 23, 24, 46, 47, 47, 49}
 	bigTicks := []int64{30 * 24, 89 * 24, 91 * 24, 96 * 24}
 
-	for i := 0; i < n; i++ {
+	newHistory := func(i int) {
 		s.caseN = i
 		dirs.SetRootDir(c.MkDir())
 		s.st = state.New(nil)
@@ -249,22 +249,133 @@ func (s *verifHoldCtlSuite) TestVerifHoldCtlRun(c *C) {
 			snapstate.Set(s.st, verifHoldCtlReal[sn], &snapst)
 		}
 		s.emit(c, "Reset", map[string]interface{}{}, nil)
+	}
+	// state locked
+	tick := func(d int64) {
+		s.shiftBack(c, d)
+		for s.onBoundary(c) {
+			s.shiftBack(c, 1)
+			d++
+		}
+		s.emit(c, "Tick", map[string]interface{}{"d": d}, nil)
+	}
+	// one gate-auto-refresh hook run of gating snap g (spec name) with the given refresh candidates (real names);
+	// how: hold | proceed | exit0 | fail. state locked on entry and exit.
+	hookRun := func(g string, cands []string, how string) {
+		gReal := verifHoldCtlReal[g]
+		cm := map[string]interface{}{}
+		for _, cn := range cands {
+			cm[cn] = mockRefreshCandidate(cn, "edge", "v1", snap.Revision{N: 3})
+		}
+		s.st.Set("refresh-candidates", cm)
+		affecting, err := snapstate.AffectingSnapsForAffectedByRefreshCandidates(s.st, gReal)
+		c.Assert(err, IsNil)
+		S := []string{}
+		for _, a := range affecting {
+			S = append(S, verifHoldCtlSpec[a])
+		}
+		sort.Strings(S)
+		c.Assert(len(S) > 0, Equals, true)
 
+		task := s.st.NewTask("test-task", "gate-auto-refresh hook of "+gReal)
+		setup := &hookstate.HookSetup{Snap: gReal, Revision: snap.R(1), Hook: "gate-auto-refresh"}
+		hctx, err := hookstate.NewContext(task, s.st, setup, hooktest.NewMockHandler(), "")
+		c.Assert(err, IsNil)
+		handler := hookstate.NewGateAutoRefreshHookHandler(hctx)
+		s.st.Unlock()
+		c.Assert(handler.Before(), IsNil)
+
+		s.runs++
+		switch how {
+		case "hold":
+			stdout, _, err := ctlcmd.Run(hctx, []string{"refresh", "--hold"}, 0)
+			res := map[string]interface{}{"ok": true, "rem": 0}
+			if err != nil {
+				// snapctl failed: the hook script exits non-zero, the handler's Error path runs
+				ignore, herr := handler.Error(fmt.Errorf("hook failed: %v", err))
+				c.Assert(herr, IsNil)
+				c.Assert(ignore, Equals, true)
+				res = map[string]interface{}{"ok": false, "rem": 0}
+				s.refused++
+			} else {
+				c.Assert(handler.Done(), IsNil)
+				txt := strings.TrimSpace(strings.TrimPrefix(strings.TrimSpace(string(stdout)), "hold:"))
+				dur, perr := time.ParseDuration(txt)
+				c.Assert(perr, IsNil, Commentf("stdout %q", stdout))
+				res["rem"] = int64(math.Round(dur.Hours()))
+			}
+			s.st.Lock()
+			s.emit(c, "Hold", map[string]interface{}{"g": g, "S": S}, res)
+		case "proceed":
+			_, _, err := ctlcmd.Run(hctx, []string{"refresh", "--proceed"}, 0)
+			c.Assert(err, IsNil)
+			c.Assert(handler.Done(), IsNil)
+			s.st.Lock()
+			s.emit(c, "Proceed", map[string]interface{}{"g": g, "S": []string{}}, nil)
+		case "exit0":
+			// the hook exits 0 without calling snapctl: proceed
+			c.Assert(handler.Done(), IsNil)
+			s.st.Lock()
+			s.emit(c, "Proceed", map[string]interface{}{"g": g, "S": []string{}}, nil)
+		case "fail":
+			// the hook fails without having called snapctl: the handler assumes hold (default duration)
+			ignore, herr := handler.Error(fmt.Errorf("hook failed"))
+			c.Assert(herr, IsNil)
+			c.Assert(ignore, Equals, true)
+			s.st.Lock()
+			gat := s.gating(c)
+			ok := true
+			for _, a := range affecting {
+				if gat[a][gReal] == nil {
+					ok = false
+				}
+			}
+			if !ok {
+				s.refused++
+			}
+			// the remaining duration is not observable on this path
+			s.emit(c, "Hold", map[string]interface{}{"g": g, "S": S}, map[string]interface{}{"ok": ok, "rem": -1})
+		}
+	}
+
+	// directed histories, always run: snap1 holds its base, the clock passes 48h, the OTHER gating snap's hook
+	// proceeds (exit 0 / --proceed), snap1 asks again (must be refused); two cycles; both ways of holding
+	hist := 0
+	for _, how := range []string{"hold", "fail"} {
+		for _, other := range []string{"exit0", "proceed"} {
+			for _, otherCands := range [][]string{{"snap1-base"}, {"snap2"}} {
+				newHistory(hist)
+				hist++
+				base := []string{"snap1-base"}
+				hookRun("a", base, how)
+				tick(49)
+				hookRun("c", otherCands, other)
+				hookRun("a", base, how)
+				tick(1)
+				tick(45)
+				tick(3)
+				hookRun("c", otherCands, other)
+				hookRun("a", base, how)
+				tick(46)
+				hookRun("a", base, how)
+				tick(3)
+				s.st.Unlock()
+			}
+		}
+	}
+	nd := hist
+
+	for i := nd; i < n+nd; i++ {
+		newHistory(i)
 		for k := 0; k < length; k++ {
 			if r.Intn(100) < 35 {
 				d := smallTicks[r.Intn(len(smallTicks))]
 				if r.Intn(6) == 0 {
 					d = bigTicks[r.Intn(len(bigTicks))]
 				}
-				s.shiftBack(c, d)
-				for s.onBoundary(c) {
-					s.shiftBack(c, 1)
-					d++
-				}
-				s.emit(c, "Tick", map[string]interface{}{"d": d}, nil)
+				tick(d)
 				continue
 			}
-			// one gate-auto-refresh hook run of a gating snap
 			g := []string{"a", "c"}[r.Intn(2)]
 			gReal := verifHoldCtlReal[g]
 			// refresh candidates: the base and/or the gating snap itself
@@ -277,84 +388,11 @@ func (s *verifHoldCtlSuite) TestVerifHoldCtlRun(c *C) {
 			default:
 				cands = []string{"snap1-base", gReal}
 			}
-			cm := map[string]interface{}{}
-			for _, cn := range cands {
-				cm[cn] = mockRefreshCandidate(cn, "edge", "v1", snap.Revision{N: 3})
-			}
-			s.st.Set("refresh-candidates", cm)
-			affecting, err := snapstate.AffectingSnapsForAffectedByRefreshCandidates(s.st, gReal)
-			c.Assert(err, IsNil)
-			S := []string{}
-			for _, a := range affecting {
-				S = append(S, verifHoldCtlSpec[a])
-			}
-			sort.Strings(S)
-			c.Assert(len(S) > 0, Equals, true)
-
-			task := s.st.NewTask("test-task", "gate-auto-refresh hook of "+gReal)
-			setup := &hookstate.HookSetup{Snap: gReal, Revision: snap.R(1), Hook: "gate-auto-refresh"}
-			hctx, err := hookstate.NewContext(task, s.st, setup, hooktest.NewMockHandler(), "")
-			c.Assert(err, IsNil)
-			handler := hookstate.NewGateAutoRefreshHookHandler(hctx)
-			s.st.Unlock()
-			c.Assert(handler.Before(), IsNil)
-
-			how := []string{"hold", "hold", "hold", "proceed", "exit0", "fail"}[r.Intn(6)]
-			s.runs++
-			switch how {
-			case "hold":
-				stdout, _, err := ctlcmd.Run(hctx, []string{"refresh", "--hold"}, 0)
-				res := map[string]interface{}{"ok": true, "rem": 0}
-				if err != nil {
-					// snapctl failed: the hook script exits non-zero, the handler's Error path runs
-					ignore, herr := handler.Error(fmt.Errorf("hook failed: %v", err))
-					c.Assert(herr, IsNil)
-					c.Assert(ignore, Equals, true)
-					res = map[string]interface{}{"ok": false, "rem": 0}
-					s.refused++
-				} else {
-					c.Assert(handler.Done(), IsNil)
-					var dur time.Duration
-					txt := strings.TrimSpace(strings.TrimPrefix(strings.TrimSpace(string(stdout)), "hold:"))
-					dur, perr := time.ParseDuration(txt)
-					c.Assert(perr, IsNil, Commentf("stdout %q", stdout))
-					res["rem"] = int64(math.Round(dur.Hours()))
-				}
-				s.st.Lock()
-				s.emit(c, "Hold", map[string]interface{}{"g": g, "S": S}, res)
-			case "proceed":
-				_, _, err := ctlcmd.Run(hctx, []string{"refresh", "--proceed"}, 0)
-				c.Assert(err, IsNil)
-				c.Assert(handler.Done(), IsNil)
-				s.st.Lock()
-				s.emit(c, "Proceed", map[string]interface{}{"g": g, "S": []string{}}, nil)
-			case "exit0":
-				// the hook exits 0 without calling snapctl: proceed
-				c.Assert(handler.Done(), IsNil)
-				s.st.Lock()
-				s.emit(c, "Proceed", map[string]interface{}{"g": g, "S": []string{}}, nil)
-			case "fail":
-				// the hook fails without having called snapctl: the handler assumes hold (default duration)
-				ignore, herr := handler.Error(fmt.Errorf("hook failed"))
-				c.Assert(herr, IsNil)
-				c.Assert(ignore, Equals, true)
-				s.st.Lock()
-				gat := s.gating(c)
-				ok := true
-				for _, a := range affecting {
-					if gat[a][gReal] == nil {
-						ok = false
-					}
-				}
-				if !ok {
-					s.refused++
-				}
-				// the remaining duration is not observable on this path
-				s.emit(c, "Hold", map[string]interface{}{"g": g, "S": S}, map[string]interface{}{"ok": ok, "rem": -1})
-			}
+			hookRun(g, cands, []string{"hold", "hold", "hold", "proceed", "exit0", "fail"}[r.Intn(6)])
 		}
 		s.st.Unlock()
 	}
+	n += nd
 	s.w.Flush()
 	fmt.Printf("VERIF-STATS {\"traces\":%d,\"calls\":%d,\"refused\":%d,\"distinct_hold_states\":%d}\n", n, s.runs, s.refused, len(s.distinct))
 }
